@@ -4,6 +4,7 @@ import (
 	"context"
 	"fmt"
 	"sync"
+	"sync/atomic"
 	"time"
 
 	"google.golang.org/protobuf/types/known/anypb"
@@ -88,6 +89,10 @@ type sysExtra struct {
 	n   string
 }
 
+// sysHangs counts the steps of this process that never came back; after a few of them the remaining receiver-section
+// cases are skipped (each would cost the same nine seconds and say the same).
+var sysHangs int32
+
 func (h *histRun) stepAt(o obj, point int, f func()) bool {
 	if h.hung {
 		return false
@@ -124,6 +129,7 @@ func (h *histRun) stepAt(o obj, point int, f func()) bool {
 		h.steps = append(h.steps, o)
 		h.hung = true
 		h.w.hung = true
+		atomic.AddInt32(&sysHangs, 1)
 		return false
 	}
 	o["obs"] = r.ob
@@ -132,6 +138,10 @@ func (h *histRun) stepAt(o obj, point int, f func()) bool {
 }
 
 func sysCase(c *ctx, rt string, names []string, second []string, extras []sysExtra, bad bool) {
+	if atomic.LoadInt32(&sysHangs) >= 4 {
+		c.count("sys.skipped-after-hangs", 1)
+		return
+	}
 	installYield()
 	w, err := newWorld(worldOpts{ndsNotRequired: true, fetchTimeout: 3 * time.Millisecond})
 	if err != nil {
